@@ -132,9 +132,41 @@ pub fn eval_case(ops: &[Op], drv: Option<&mut Drv>, pool: &Pool) -> CaseResult {
                 impl_v.push(("C12".into(), format!("the sendable dispatcher runs {:?}, the plan was {:?}", order, want)));
             }
         }
-        Err(_) => {
+        Err(mut d) => {
             if lay.tl.is_empty() {
                 impl_v.push(("C12".into(), "try_into_sendable failed although no thread-local system is registered".into()));
+            }
+            // a refused conversion hands the dispatcher back: it must still be the same dispatcher
+            // (plan, thread-local systems in registration order), also after a second refusal
+            for attempt in 0..2 {
+                if d.verif_shape().0 != shape_before {
+                    impl_v.push(("C12".into(), format!("a refused try_into_sendable changed the plan: {:?} -> {:?}", shape_before, d.verif_shape().0)));
+                }
+                shared.take_log();
+                shared.ident.store(true, std::sync::atomic::Ordering::SeqCst);
+                shared.set_caller();
+                let w = full_world();
+                let r = catch_unwind(AssertUnwindSafe(|| {
+                    d.dispatch_seq(&w);
+                    d.dispatch_thread_local(&w);
+                }));
+                shared.ident.store(false, std::sync::atomic::Ordering::SeqCst);
+                let order: Vec<usize> = shared.take_log().iter().filter(|e| e.kind == 'F' && e.inst.len() == 1).map(|e| e.inst[0]).collect();
+                let mut want: Vec<usize> = lay.stages.iter().flatten().flatten().cloned().collect();
+                want.extend(lay.tl.iter().cloned());
+                if r.is_err() || order != want {
+                    impl_v.push(("C12".into(), format!("after {} refused try_into_sendable the dispatcher runs {:?}, the plan (staged systems, then thread-local systems in registration order) was {:?}", attempt + 1, order, want)));
+                    break;
+                }
+                if attempt == 0 {
+                    d = match d.try_into_sendable() {
+                        Err(d2) => d2,
+                        Ok(_) => {
+                            impl_v.push(("C12".into(), "the second try_into_sendable succeeded although thread-local systems are registered".into()));
+                            break;
+                        }
+                    };
+                }
             }
         }
     }
